@@ -236,6 +236,8 @@ def run(tier):
                         continue
                     seen.add(line)
                     keep.append(line)
+            if tier == "quick":
+                keep = keep[::2]    # the sequence pass is a sample either way; every second case keeps quick inside its budget
             with open(cases, "w") as f:
                 f.writelines(keep)
         case_rows = vlib.read_ndjson(cases)
